@@ -1,9 +1,262 @@
-import DiscretModel.Lemmas.Room
-import DiscretModel.Model.RoomBuild
-/- C10 — placeholder while the pipeline is brought up; replaced by the real statements. -/
+import DiscretModel.Lemmas.RoomSite
+/-
+C10 — A room means the same live, after restart, and on a peer that imports it.
+
+Models: `Model/Room.lean` (decision functions, append-only histories), `Model/RoomBuild.lean` (the
+construction paths: local mutation, reload at start-up, export, import of a new room, import on top of an
+earlier version). The compiled model (`dmodel_room`) is run against real `GraphDatabaseService` instances
+on every check (`checks/C10.py`).
+
+All statements quantify over every history (any number of entries, keys, groups, dates, instances).
+-/
 namespace Discret.RoomBuild
 open Discret.Room
 
-theorem C10_placeholder (r : Room) (d : Int) : r.SameAt r d := Room.SameAt.refl r d
+/-- the instances that can be reached: local room mutations by any caller at any date, restarts, and
+    imports of ANY candidate (honest or not — which candidates are accepted is C07's subject) -/
+inductive Reachable (df : Defects) : Site → Prop
+  | empty : Reachable df Site.empty
+  | mutate {s s' : Site} {caller : Key} {n : Nat} {m : MutSpec} :
+      Reachable df s → s.mutate caller n m = .ok s' → Reachable df s'
+  | restart {s s' : Site} : Reachable df s → s.restart df = .ok s' → Reachable df s'
+  | importRoom {s s' : Site} {cand : RoomRow} :
+      Reachable df s → s.importRoom df cand = .ok s' → Reachable df s'
+
+/-- **C10 (invariant).** In every reachable instance (intended behaviour), every room held in memory is
+    well-formed and holds exactly the entries of the rows stored for it, list by list; every stored room is
+    held in memory; the instance is alive. -/
+theorem C10_invariant {s : Site} (h : Reachable Defects.none s) : SiteInv s ∧ s.dead = false := by
+  induction h with
+  | empty => exact ⟨siteInv_empty, rfl⟩
+  | @mutate s s' caller n m _ hm ih =>
+    refine ⟨siteInv_mutate ih.1 hm, ?_⟩
+    unfold Site.mutate at hm
+    split at hm
+    · cases hm
+    · simp only at hm
+      split at hm
+      · cases hm
+      · split at hm
+        · cases hm
+        · cases hm; simp [ih.2]
+  | @restart s s' _ hr ih =>
+    obtain ⟨s2, h2, hi, _, _⟩ := restart_none ih.1 ih.2
+    rw [h2] at hr; cases hr
+    refine ⟨hi, ?_⟩
+    unfold Site.restart at h2
+    simp only [ih.2, Bool.false_eq_true, if_false] at h2
+    split at h2
+    · cases h2
+    · cases h2; rfl
+  | @importRoom s s' cand _ hm ih =>
+    refine ⟨siteInv_import ih.1 hm, ?_⟩
+    unfold Site.importRoom at hm
+    split at hm
+    · cases hm
+    · split at hm
+      · split at hm
+        · cases hm
+        · cases hm; simp [ih.2]
+      · split at hm
+        · cases hm
+        · split at hm
+          · cases hm
+          · cases hm; exact ih.2
+          · split at hm
+            · cases hm
+            · cases hm; simp [ih.2]
+
+/-- **C10 (the decisions are a function of the stored entries).** Two well-formed rooms that hold the
+    entries of the same rows — inserted in ANY order, groups in any order — give the same answer to every
+    question (`isAdmin`, `isUserValidAt`, `canAdminUsers` of every group, `can` for every key, entity, right)
+    at every date, provided that within one list two entries with the same key and the same date carry the
+    same payload (`TiesHarmless`). This is why live construction, reload and import agree. -/
+theorem C10_same_meaning {r₁ r₂ : Room} {x y : RoomRow} (a1 : Agrees r₁ x) (a2 : Agrees r₂ y)
+    (hs : SameRows x y) (w1 : r₁.WF) (w2 : r₂.WF) (ht : TiesHarmless x) (d : Int) : r₁.SameAt r₂ d :=
+  sameAt_of_agrees a1 a2 hs w1 w2 ht d
+
+/-- **C10 (restart).** A reachable instance can always be restarted on the data it wrote itself, and every
+    room it held means the same afterwards. -/
+theorem C10_restart {s : Site} (h : Reachable Defects.none s) :
+    ∃ s', s.restart Defects.none = .ok s' ∧
+      ∀ rid r, s.getMem rid = some r →
+        ∃ r' rr, s'.getMem rid = some r' ∧ s.getStored rid = some rr ∧
+          (TiesHarmless rr → ∀ d, r.SameAt r' d) := by
+  obtain ⟨hi, hd⟩ := C10_invariant h
+  obtain ⟨s', hr, _, _, hrooms⟩ := restart_none hi hd
+  refine ⟨s', hr, ?_⟩
+  intro rid r hm
+  obtain ⟨r', rr, hm', hs, ha, hw, ha', hw'⟩ := hrooms rid r hm
+  refine ⟨r', rr, hm', hs, ?_⟩
+  intro ht d
+  exact sameAt_of_agrees ha.agrees ha'.agrees (exportRoom_sameRows _ rr).symm hw hw' ht d
+
+/-- **C10 (import by an instance that had never seen the room).** If the export of a reachable instance is
+    accepted by an instance that does not hold the room, the room installed there means the same as the
+    room of the exporter. -/
+theorem C10_import_unknown {src dst dst' : Site} (hsrc : Reachable Defects.none src) {rid : Id} {r : Room}
+    {cand : RoomRow} (hm : src.getMem rid = some r) (he : src.export Defects.none rid = .ok cand)
+    (hnone : dst.getMem rid = none) (hi : dst.importRoom Defects.none cand = .ok dst') :
+    ∃ r' rr, dst'.getMem rid = some r' ∧ src.getStored rid = some rr ∧
+      (TiesHarmless rr → ∀ d, r.SameAt r' d) := by
+  obtain ⟨hinv, hd⟩ := C10_invariant hsrc
+  obtain ⟨rr, hs, ha, hw⟩ := hinv.agree _ _ hm
+  have hc : cand = exportRoom Defects.none rr := by
+    unfold Site.export at he
+    simp only [hd, Bool.false_eq_true, if_false, hs] at he
+    cases he; rfl
+  have hcid : cand.rid = rid := by rw [hc]; show rr.rid = rid; exact getStored_some hs
+  unfold Site.importRoom at hi
+  split at hi
+  · cases hi
+  · rw [hcid, hnone] at hi
+    simp only at hi
+    split at hi
+    · cases hi
+    · rename_i room hp
+      cases hi
+      unfold prepareNewRoom at hp
+      split at hp
+      · cases hp
+      · rename_i r0 hparse
+        split at hp
+        · cases hp
+          obtain ⟨ha', hw', hid'⟩ := parseRoom_agreesOrd (liftErr_ok hparse)
+          refine ⟨room, rr, ?_, hs, ?_⟩
+          · rw [getMem_setMem]; simp [hid', hcid]
+          · intro ht d
+            subst hc
+            exact sameAt_of_agrees ha.agrees ha'.agrees (exportRoom_sameRows _ rr).symm hw hw' ht d
+        · cases hp
+
+/-- **C10 (import, in general).** Whatever an instance accepts — a new room, or a newer version of a room
+    it holds — what it installs in memory is the parse of what it stores: the importer itself is consistent,
+    so `C10_restart` applies to it (restart of the importer), and so does `C10_same_meaning` with any other
+    instance storing the same rows. -/
+theorem C10_import_consistent {s s' : Site} {cand : RoomRow} (hs : Reachable Defects.none s)
+    (hi : s.importRoom Defects.none cand = .ok s') : SiteInv s' ∧ Reachable Defects.none s' :=
+  ⟨(C10_invariant (Reachable.importRoom hs hi)).1, Reachable.importRoom hs hi⟩
+
+/-! ### non-vacuity -/
+
+/-- creation by key 1 at date 1: admins 1 and 2; group 0 with a right on entity 1 and user 4 -/
+def m1 : MutSpec :=
+  { rid := 0, isNew := true, date := 1, admins := [(1, true), (2, true)],
+    groups := [{ gid := 0, isNew := true, rights := [(1, false, true)], users := [(4, true)], userAdmins := [(1, true)] }] }
+
+/-- at date 3 key 1 disables user 4 and replaces the right -/
+def m2 : MutSpec :=
+  { rid := 0, isNew := false, date := 3, admins := [],
+    groups := [{ gid := 0, isNew := false, rights := [(1, true, false)], users := [(4, false)], userAdmins := [] }] }
+
+def site1 : Site := match Site.empty.mutate 1 0 m1 with | .ok s => s | .error _ => Site.empty
+def site2 : Site := match site1.mutate 1 (0 + m1.size) m2 with | .ok s => s | .error _ => Site.empty
+
+def canAt (s : Site) (k : Key) (e : Ent) (d : Int) (rt : RightType) : Bool :=
+  match s.getMem 0 with
+  | some r => r.can k e d rt
+  | none => false
+
+def restarted (df : Defects) (s : Site) : Site := match s.restart df with | .ok s' => s' | .error _ => Site.empty
+
+def imported (df : Defects) (src dst : Site) : Except MErr Site :=
+  match src.export df 0 with
+  | .ok c => dst.importRoom df c
+  | .error e => .error e
+
+theorem ok_of_toBool {ε α : Type} {x : Except ε α} (h : x.toBool = true) : ∃ a, x = .ok a := by
+  cases x with
+  | ok a => exact ⟨a, rfl⟩
+  | error e => cases h
+
+-- a reachable instance with a two-date history; user 4 can write at 2, not at 3
+example : Reachable Defects.none site2 := by
+  obtain ⟨a, ha⟩ := ok_of_toBool (x := Site.empty.mutate 1 0 m1) (by decide)
+  obtain ⟨b, hb⟩ := ok_of_toBool (x := site1.mutate 1 (0 + m1.size) m2) (by decide)
+  have h1 : site1 = a := by simp only [site1, ha]
+  have h2 : site2 = b := by simp only [site2, hb]
+  rw [h2]
+  exact Reachable.mutate (Reachable.mutate Reachable.empty ha) (h1 ▸ hb)
+
+example : canAt site2 4 1 2 .mutateSelf = true ∧ canAt site2 4 1 3 .mutateSelf = false ∧
+    canAt site2 2 1 3 .mutateSelf = true ∧ canAt site2 2 1 3 .mutateAll = false := by decide
+
+-- with the intended behaviour the restart and the fresh import succeed and give the same answers
+example : canAt (restarted Defects.none site2) 4 1 2 .mutateSelf = true ∧
+    canAt (restarted Defects.none site2) 4 1 3 .mutateSelf = false := by decide
+
+example : (imported Defects.none site2 Site.empty).toBool = true := by decide
+
+/-! ### the code as it is (`Defects.asImplemented`): the full statement is false -/
+
+/-- **C10_breaks_newestFirstReplay (#4).** After a second entry for one key (user 4 disabled at a later
+    date) the instance cannot be restarted, and a fresh peer cannot import the room: the entries are
+    replayed newest first into the append-only histories. -/
+theorem C10_breaks_newestFirstReplay :
+    (site2.restart Defects.asImplemented).toBool = false ∧
+    (imported Defects.asImplemented site2 Site.empty).toBool = false ∧
+    (site2.restart { Defects.asImplemented with newestFirstReplay := false }).toBool = true := by decide
+
+/-- **C10_breaks_reloadRawRights (#5).** A right `{mutate_self: false, mutate_all: true}` grants own-row
+    mutations live and on an importer (normalised by `EntityRight::new`) but not after a restart. -/
+theorem C10_breaks_reloadRawRights :
+    canAt site1 4 1 1 .mutateSelf = true ∧
+    canAt (restarted Defects.asImplemented site1) 4 1 1 .mutateSelf = false ∧
+    canAt (restarted { Defects.asImplemented with reloadRawRights := false } site1) 4 1 1 .mutateSelf = true := by
+  decide
+
+/-- a room with two admins and no group -/
+def m3 : MutSpec := { rid := 0, isNew := true, date := 1, admins := [(1, true), (2, true)], groups := [] }
+def site3 : Site := match Site.empty.mutate 1 0 m3 with | .ok s => s | .error _ => Site.empty
+
+def adminAtSite (s : Site) (k : Key) (d : Int) : Bool :=
+  match s.getMem 0 with
+  | some r => r.isAdmin k d
+  | none => false
+
+/-- **C10_breaks_reloadDropsIncompleteRoom.** A room without group is not loaded at start-up: key 2 is an
+    admin before the restart and unknown after it. -/
+theorem C10_breaks_reloadDropsIncompleteRoom :
+    adminAtSite site3 2 1 = true ∧ adminAtSite (restarted Defects.asImplemented site3) 2 1 = false ∧
+    adminAtSite (restarted { Defects.asImplemented with reloadDropsIncompleteRoom := false } site3) 2 1 = true := by
+  decide
+
+/-- at date 2 admin 1 adds a new group 1 with user 4, without making itself user admin of it -/
+def m4 : MutSpec :=
+  { rid := 0, isNew := false, date := 2, admins := [],
+    groups := [{ gid := 1, isNew := true, rights := [(0, true, false)], users := [(4, true)], userAdmins := [] }] }
+def site4 : Site := match site3.mutate 1 (0 + m3.size) m4 with | .ok s => s | .error _ => Site.empty
+def peer3 (df : Defects) : Site := match imported df site3 Site.empty with | .ok s => s | .error _ => Site.empty
+
+/-- **C10_breaks_newGroupUsersRule (#33).** A peer that already holds the room refuses the honest new
+    group (its user was added by a room admin who is not user admin of the new group); a fresh peer accepts
+    the very same definition. -/
+theorem C10_breaks_newGroupUsersRule :
+    (imported Defects.asImplemented site4 (peer3 Defects.asImplemented)).toBool = false ∧
+    (imported Defects.asImplemented site4 Site.empty).toBool = true ∧
+    (imported { Defects.asImplemented with newGroupUsersNeedUserAdmin := false } site4
+      (peer3 Defects.asImplemented)).toBool = true := by decide
+
+/-- two stored orders of the same two admin entries of key 2 with the same date and different flags -/
+def tieA : RoomRow :=
+  { rid := 0, mdate := 1, author := 1, groups := [],
+    admins := [⟨0, 1, 1, true, 1⟩, ⟨1, 2, 1, true, 1⟩, ⟨2, 2, 1, false, 1⟩] }
+def tieB : RoomRow :=
+  { rid := 0, mdate := 1, author := 1, groups := [],
+    admins := [⟨0, 1, 1, true, 1⟩, ⟨2, 2, 1, false, 1⟩, ⟨1, 2, 1, true, 1⟩] }
+
+def adminOf (rr : RoomRow) (k : Key) (d : Int) : Bool :=
+  match parseRoom false (exportRoom Defects.none rr) with
+  | .ok r => r.isAdmin k d
+  | .error _ => false
+
+/-- **C10_breaks_sameDateEntries.** The guard `TiesHarmless` is needed even for the intended behaviour:
+    the same rows, returned by the storage in two orders (SQLite orders equal dates by uid), give different
+    answers when two entries of one key carry the same date and different flags. The live instance takes the
+    last inserted; a reload or an import takes whatever order the storage returns. -/
+theorem C10_breaks_sameDateEntries :
+    tieA.admins.Perm tieB.admins ∧ adminOf tieA 2 1 = false ∧ adminOf tieB 2 1 = true := by
+  refine ⟨?_, by decide, by decide⟩
+  exact List.Perm.cons _ (List.Perm.swap _ _ _)
 
 end Discret.RoomBuild
